@@ -15,6 +15,7 @@ import (
 	"fmt"
 	"math"
 	"testing"
+	"time"
 
 	"github.com/glowlabs-org/gca-backend/client"
 	"github.com/glowlabs-org/gca-backend/glow"
@@ -460,12 +461,21 @@ func TestC15JSONEndToEnd(t *testing.T) {
 	ev.Rule("C15(end-to-end): authorizations with boundary field values and any finite latitude/longitude are POSTed as JSON to a live server; GET /equipment and the 148-byte record in equipment-authorizations.dat must reproduce them bit for bit")
 	server.VerifSetStepping(true)
 	s := newSess(t, "C15", keyFor("temp"), 0)
-	defer s.cleanup()
+	defer func() { s.cleanup() }()
 	s.start()
 	gca := keyFor("gca")
 	s.register(gca, keyFor("temp"), true)
+	born := time.Now()
 	n := 0
 	rapid.Check(t, func(t *rapid.T) {
+		// a server of the test build ends the process after 120 s of life: take a fresh one in time
+		if time.Since(born) > fixtureMaxAge {
+			s.cleanup()
+			s = newSess(t, "C15", keyFor("temp"), 0)
+			s.start()
+			s.register(gca, keyFor("temp"), true)
+			born = time.Now()
+		}
 		s.t = t
 		a := drawRefAuth(t)
 		a.ShortID = uint32(1000 + n)
